@@ -1110,9 +1110,12 @@ package gmars
 //@   split mode in 0..7
 //@   assume 3 <= m && 0 <= PC && PC < m && 0 <= k && k < m && 1 <= R && R <= m && 1 <= W && W <= m && 0 <= f && f < m
 //@   assume rot(c, d, k, m) && fieldsOK(c, m)
+// (shows are proved in order; later ones may use the earlier ones)
+//@   show sideCell((PC + k) % m, m, W, f) == (sideCell(PC, m, W, f) + k) % m
+//@   show rot(opPre(c, PC, m, W, mode, f), opPre(d, (PC + k) % m, m, W, mode, f), k, m)
+//@   show fieldsOK(opPre(c, PC, m, W, mode, f), m)
 //@   show opPtr(opPre(d, (PC + k) % m, m, W, mode, f), (PC + k) % m, m, R, mode, f) == opPtr(opPre(c, PC, m, W, mode, f), PC, m, R, mode, f)
 //@   show opPtr(opPre(d, (PC + k) % m, m, W, mode, f), (PC + k) % m, m, W, mode, f) == opPtr(opPre(c, PC, m, W, mode, f), PC, m, W, mode, f)
-//@   show rot(opPre(c, PC, m, W, mode, f), opPre(d, (PC + k) % m, m, W, mode, f), k, m)
 //@   show rot(opPost(opPre(c, PC, m, W, mode, f), PC, m, W, mode, f), opPost(opPre(d, (PC + k) % m, m, W, mode, f), (PC + k) % m, m, W, mode, f), k, m)
 //@   show fieldsOK(opPost(opPre(c, PC, m, W, mode, f), PC, m, W, mode, f), m)
 // the operand instruction (fetched through the read pointer after the pre-decrement) is the same
